@@ -17,6 +17,7 @@ CONSTANTS
   TableOnly = {"g1212"}
   OkRecomputed = FALSE
 INVARIANT InvStage
+INVARIANT InvRaisedNoVerdict
 INVARIANT InvGradesInUnit
 INVARIANT InvStaleOk
 INVARIANT InvStripped
